@@ -1,0 +1,755 @@
+//! Hooks for deterministic simulation (compiled only with the cargo feature `verif`).
+//!
+//! Nothing in this module is used by the shipped binaries. It gives an external harness
+//! a way to run the server core, the scheduler and the worker state machine inside one
+//! process without sockets, and to take read-only snapshots of their state.
+//!
+//! Glue that is *mirrored* from code that cannot be called without a TCP connection is
+//! marked with `MIRROR:` and the source it mirrors.
+
+use std::cell::Cell;
+use std::future::Future;
+use std::pin::Pin;
+use std::rc::Rc;
+use std::time::{Duration, Instant};
+
+use bytes::{Bytes, BytesMut};
+use futures::Stream;
+use tokio::sync::Notify;
+use tokio::sync::mpsc::{UnboundedReceiver, UnboundedSender};
+
+use crate::control::ServerRef;
+use crate::gateway::{CrashLimit, LostWorkerReason};
+use crate::internal::messages::worker::{
+    NewWorkerMsg, ToWorkerMessage, WorkerRegistrationResponse, WorkerStopReason,
+};
+use crate::internal::scheduler::{SchedulerConfig, SchedulerResult, run_scheduling};
+use crate::internal::server::comm::CommSenderRef;
+use crate::internal::server::core::CoreRef;
+use crate::internal::server::reactor::{on_new_worker, on_remove_worker};
+use crate::internal::server::rpc::worker_receive_loop;
+use crate::internal::server::task::TaskRuntimeState;
+use crate::internal::server::worker::{DEFAULT_WORKER_OVERVIEW_INTERVAL, Worker, WorkerAssignment};
+use crate::internal::transfer::auth::serialize;
+use crate::internal::worker::comm::WorkerComm;
+use crate::internal::worker::configuration::{WorkerConfiguration, sync_worker_configuration};
+use crate::internal::worker::state::WorkerStateRef;
+use crate::launcher::TaskLauncher;
+use crate::resources::{ResourceIdMap, ResourceRequestVariants, ResourceRqId};
+use crate::{InstanceId, ResourceVariantId, TaskId, UserPriority, WorkerId};
+
+thread_local! {
+    static SIM_CLOCK: Cell<bool> = const { Cell::new(false) };
+}
+
+/// Switch the simulated clock on/off for the current thread. When on, the few places that read
+/// `std::time::Instant::now()` for control flow read tokio's (paused) clock instead.
+pub fn set_sim_clock(active: bool) {
+    SIM_CLOCK.with(|c| c.set(active));
+}
+
+pub fn sim_clock_active() -> bool {
+    SIM_CLOCK.with(|c| c.get())
+}
+
+/// Current instant: tokio's clock (paused & advanced by the harness) if the simulated clock is
+/// active, the real monotonic clock otherwise.
+pub fn now() -> Instant {
+    if sim_clock_active() {
+        tokio::time::Instant::now().into_std()
+    } else {
+        Instant::now()
+    }
+}
+
+pub type LocalFuture = Pin<Box<dyn Future<Output = ()>>>;
+pub type SimSpawner = Box<dyn Fn(LocalFuture)>;
+pub type ByteStream = Pin<Box<dyn Stream<Item = Result<BytesMut, std::io::Error>>>>;
+
+pub use crate::internal::messages::worker::{
+    ComputeTasksMsg, FromWorkerMessage, TaskIdsMsg, TaskRunningMsg, WorkerTaskUpdate,
+};
+pub use crate::internal::messages::worker::ToWorkerMessage as ToWorkerMsg;
+pub use crate::internal::worker::resources::verif::{
+    AllocatorSnapshot, ConciseSnapshot, PoolGroupSnapshot, PoolKind, PoolSnapshot,
+};
+
+/* ------------------------------------------------------------------------------------------ */
+/* Server                                                                                     */
+/* ------------------------------------------------------------------------------------------ */
+
+pub struct SimServer {
+    core_ref: CoreRef,
+    comm_ref: CommSenderRef,
+}
+
+#[derive(Debug, Clone, Copy, PartialEq, Eq)]
+pub enum SimSchedulerResult {
+    Done,
+    NeedMoreCompute,
+    NoProgress,
+}
+
+impl SimServer {
+    /// MIRROR: the part of `control::server_start` that does not need a `TcpListener`.
+    pub fn new(
+        server_uid: String,
+        worker_id_initial_value: WorkerId,
+        idle_timeout: Option<Duration>,
+        scheduler_config: SchedulerConfig,
+    ) -> Self {
+        let scheduler_wakeup = Rc::new(Notify::new());
+        let comm_ref = CommSenderRef::new(scheduler_wakeup, false);
+        let core_ref = CoreRef::new(
+            0,
+            None,
+            idle_timeout,
+            None,
+            server_uid,
+            worker_id_initial_value,
+            scheduler_config,
+        );
+        SimServer { core_ref, comm_ref }
+    }
+
+    pub fn server_ref(&self) -> ServerRef {
+        ServerRef::verif_new(self.core_ref.clone(), self.comm_ref.clone())
+    }
+
+    /// MIRROR: registration block of `internal::server::rpc::worker_rpc_loop`
+    /// (new id, resource ids, `on_new_worker`, registration response, `comm.add_worker`).
+    /// Returns the worker id and the receiving end of the server->worker queue; its first
+    /// element is the serialized `WorkerRegistrationResponse`.
+    pub fn register_worker(
+        &self,
+        mut configuration: WorkerConfiguration,
+        now: Instant,
+    ) -> (WorkerId, UnboundedReceiver<Bytes>) {
+        let core_ref = &self.core_ref;
+        let comm_ref = &self.comm_ref;
+        let worker_id = core_ref.get_mut().new_worker_id();
+        assert!(configuration.heartbeat_interval.as_millis() > 150);
+        sync_worker_configuration(&mut configuration, *core_ref.get().idle_timeout());
+        let (queue_sender, queue_receiver) = tokio::sync::mpsc::unbounded_channel::<Bytes>();
+        {
+            let mut core = core_ref.get_mut();
+            for item in &configuration.resources.resources {
+                core.get_or_create_resource_id(&item.name);
+            }
+            let worker = Worker::new(
+                worker_id,
+                configuration.clone(),
+                &core.create_resource_map(),
+                now,
+            );
+            on_new_worker(&mut core, &mut *comm_ref.get_mut(), worker);
+        }
+        let message: WorkerRegistrationResponse = {
+            let core = core_ref.get();
+            WorkerRegistrationResponse {
+                worker_id,
+                resource_names: core.create_resource_map().into_vec(),
+                resource_rq_map: core.get_resource_rq_map().clone(),
+                other_workers: core
+                    .get_workers()
+                    .filter_map(|w| {
+                        if w.id != worker_id {
+                            Some(NewWorkerMsg {
+                                worker_id: w.id(),
+                                address: w.configuration().listen_address.clone(),
+                                resources: w.resources.to_transport(),
+                            })
+                        } else {
+                            None
+                        }
+                    })
+                    .collect(),
+                server_idle_timeout: *core.idle_timeout(),
+                server_uid: core.server_uid().to_string(),
+                worker_overview_interval_override: if core.worker_overview_listeners() > 0 {
+                    Some(DEFAULT_WORKER_OVERVIEW_INTERVAL)
+                } else {
+                    None
+                },
+            }
+        };
+        queue_sender
+            .send(serialize(&message).unwrap().into())
+            .unwrap();
+        comm_ref.get_mut().add_worker(worker_id, queue_sender);
+        (worker_id, queue_receiver)
+    }
+
+    /// The real `worker_receive_loop` over a harness-provided stream of frames (no encryption).
+    pub fn worker_receive_future(
+        &self,
+        worker_id: WorkerId,
+        reader: ByteStream,
+    ) -> Pin<Box<dyn Future<Output = crate::Result<Option<WorkerStopReason>>>>> {
+        Box::pin(worker_receive_loop(
+            self.core_ref.clone(),
+            self.comm_ref.clone(),
+            worker_id,
+            reader,
+            None,
+        ))
+    }
+
+    /// MIRROR: tail of `worker_rpc_loop` (stop-reason override, `comm.remove_worker`,
+    /// `on_remove_worker`).
+    pub fn remove_worker(&self, worker_id: WorkerId, reason: LostWorkerReason) {
+        let mut core = self.core_ref.get_mut();
+        let mut comm = self.comm_ref.get_mut();
+        let reason = core
+            .get_worker(worker_id)
+            .stop_reason
+            .map(|(r, _)| r)
+            .unwrap_or(reason);
+        comm.remove_worker(worker_id);
+        on_remove_worker(&mut core, &mut *comm, worker_id, reason);
+    }
+
+    /// MIRROR: `WorkerStopReason` -> `LostWorkerReason` mapping of `worker_rpc_loop`.
+    pub fn stop_reason_to_lost_reason(reason: Option<WorkerStopReason>) -> LostWorkerReason {
+        match reason {
+            Some(WorkerStopReason::IdleTimeout) => LostWorkerReason::IdleTimeout,
+            Some(WorkerStopReason::TimeLimitReached) => LostWorkerReason::TimeLimitReached,
+            Some(WorkerStopReason::Interrupted) | None => LostWorkerReason::ConnectionLost,
+        }
+    }
+
+    pub fn scheduling_flag(&self) -> bool {
+        self.comm_ref.get().get_scheduling_flag()
+    }
+
+    /// MIRROR: one iteration of the body of `scheduler_loop` (without its sleeping):
+    /// run one scheduling round with the injected `now`; the flag is reset unless the
+    /// solver asked for more compute.
+    pub fn run_scheduling(&self, now: Instant) -> SimSchedulerResult {
+        let r = run_scheduling(
+            &mut self.core_ref.get_mut(),
+            &mut self.comm_ref.get_mut(),
+            now,
+        );
+        match r {
+            SchedulerResult::Done => {
+                self.comm_ref.get_mut().reset_scheduling_flag();
+                SimSchedulerResult::Done
+            }
+            SchedulerResult::NoProgress => {
+                self.comm_ref.get_mut().reset_scheduling_flag();
+                SimSchedulerResult::NoProgress
+            }
+            SchedulerResult::NeedMoreCompute => SimSchedulerResult::NeedMoreCompute,
+        }
+    }
+
+    /// Simulates the `Heartbeat` bookkeeping without a message.
+    pub fn worker_ids(&self) -> Vec<WorkerId> {
+        let mut ids: Vec<_> = self.core_ref.get().get_workers().map(|w| w.id).collect();
+        ids.sort();
+        ids
+    }
+
+    pub fn worker_counter(&self) -> u32 {
+        self.core_ref.get().worker_counter()
+    }
+
+    pub fn server_uid(&self) -> String {
+        self.core_ref.get().server_uid().to_string()
+    }
+
+    pub fn snapshot(&self) -> CoreSnapshot {
+        let core = self.core_ref.get();
+        let split = core.split();
+        let mut tasks: Vec<TaskSnapshot> = split
+            .task_map
+            .tasks()
+            .map(|t| TaskSnapshot {
+                id: t.id,
+                state: match &t.state {
+                    TaskRuntimeState::Waiting { unfinished_deps } => TaskStateSnapshot::Waiting {
+                        unfinished_deps: *unfinished_deps,
+                    },
+                    TaskRuntimeState::Assigned { worker_id, rv_id } => {
+                        TaskStateSnapshot::Assigned {
+                            worker_id: *worker_id,
+                            rv_id: *rv_id,
+                        }
+                    }
+                    TaskRuntimeState::Prefilled { worker_id } => TaskStateSnapshot::Prefilled {
+                        worker_id: *worker_id,
+                    },
+                    TaskRuntimeState::Retracting { worker_id } => TaskStateSnapshot::Retracting {
+                        worker_id: *worker_id,
+                    },
+                    TaskRuntimeState::Running { worker_id, rv_id } => TaskStateSnapshot::Running {
+                        worker_id: *worker_id,
+                        rv_id: *rv_id,
+                    },
+                    TaskRuntimeState::RunningMultiNode(ws) => {
+                        TaskStateSnapshot::RunningMultiNode(ws.iter().copied().collect())
+                    }
+                    TaskRuntimeState::Finished => TaskStateSnapshot::Finished,
+                },
+                deps: t.task_deps.iter().copied().collect(),
+                consumers: {
+                    let mut c: Vec<_> = t.get_consumers().iter().copied().collect();
+                    c.sort();
+                    c
+                },
+                resource_rq_id: t.resource_rq_id,
+                instance_id: t.instance_id,
+                crash_counter: t.crash_counter,
+                user_priority: t.configuration.user_priority,
+                crash_limit: t.configuration.crash_limit,
+                time_limit: t.configuration.time_limit,
+            })
+            .collect();
+        tasks.sort_by_key(|t| t.id);
+
+        let mut workers: Vec<WorkerSnapshot> = split
+            .worker_map
+            .get_workers()
+            .map(|w| WorkerSnapshot {
+                id: w.id,
+                group: w.configuration.group.clone(),
+                resources: w.resources.iter_amounts().map(|a| a.total_fractions()).collect(),
+                assignment: match w.assignment() {
+                    WorkerAssignment::Sn(sn) => {
+                        let mut assigned: Vec<_> = sn.assigned_tasks.iter().copied().collect();
+                        assigned.sort();
+                        let mut prefilled: Vec<_> = sn.prefilled_tasks.iter().copied().collect();
+                        prefilled.sort();
+                        WorkerAssignmentSnapshot::Sn {
+                            assigned,
+                            prefilled,
+                            free: sn
+                                .free_resources
+                                .iter_amounts()
+                                .map(|a| a.total_fractions())
+                                .collect(),
+                        }
+                    }
+                    WorkerAssignment::Mn(mn) => WorkerAssignmentSnapshot::Mn {
+                        task_id: mn.task_id,
+                        is_root: mn.is_root,
+                    },
+                },
+                blocked_requests: {
+                    let mut b: Vec<_> = w.blocked_requests.iter().copied().collect();
+                    b.sort();
+                    b
+                },
+                termination_time: w.termination_time,
+                stop_reason: w.stop_reason.map(|(r, _)| r),
+                time_limit: w.configuration.time_limit,
+            })
+            .collect();
+        workers.sort_by_key(|w| w.id);
+
+        let queues: Vec<QueueSnapshot> = split
+            .task_queues
+            .iter()
+            .map(|q| QueueSnapshot {
+                resource_rq_id: q.resource_rq_id,
+                ready: q
+                    .queue
+                    .iter()
+                    .map(|(p, ids)| {
+                        (
+                            p.0,
+                            match ids {
+                                crate::internal::scheduler::verif_reexport::OneOrMoreTaskIds::One(t) => vec![*t],
+                                crate::internal::scheduler::verif_reexport::OneOrMoreTaskIds::More(ts) => {
+                                    ts.iter().copied().collect()
+                                }
+                            },
+                        )
+                    })
+                    .collect(),
+                prefill: q.prefill.as_ref().map(|(p, ts)| {
+                    let mut v: Vec<_> = ts.iter().copied().collect();
+                    v.sort();
+                    (*p, v)
+                }),
+            })
+            .collect();
+
+        let mut redirects: Vec<_> = split
+            .scheduler_state
+            .redirects
+            .iter()
+            .map(|(t, (w, v))| (*t, *w, *v))
+            .collect();
+        redirects.sort();
+
+        let mut groups: Vec<(String, Vec<WorkerId>)> = split
+            .worker_groups
+            .iter()
+            .map(|(name, g)| {
+                let mut ids: Vec<_> = g.worker_ids().collect();
+                ids.sort();
+                (name.clone(), ids)
+            })
+            .collect();
+        groups.sort();
+
+        CoreSnapshot {
+            tasks,
+            workers,
+            queues,
+            redirects,
+            groups,
+            resource_names: core.create_resource_map().into_vec(),
+            requests: split.request_map.iter().cloned().collect(),
+            scheduling_flag: self.comm_ref.get().get_scheduling_flag(),
+        }
+    }
+}
+
+#[derive(Debug, Clone, PartialEq, Eq)]
+pub enum TaskStateSnapshot {
+    Waiting {
+        unfinished_deps: u32,
+    },
+    Assigned {
+        worker_id: WorkerId,
+        rv_id: ResourceVariantId,
+    },
+    Prefilled {
+        worker_id: WorkerId,
+    },
+    Retracting {
+        worker_id: WorkerId,
+    },
+    Running {
+        worker_id: WorkerId,
+        rv_id: ResourceVariantId,
+    },
+    RunningMultiNode(Vec<WorkerId>),
+    Finished,
+}
+
+#[derive(Debug, Clone)]
+pub struct TaskSnapshot {
+    pub id: TaskId,
+    pub state: TaskStateSnapshot,
+    pub deps: Vec<TaskId>,
+    pub consumers: Vec<TaskId>,
+    pub resource_rq_id: ResourceRqId,
+    pub instance_id: InstanceId,
+    pub crash_counter: u32,
+    pub user_priority: UserPriority,
+    pub crash_limit: CrashLimit,
+    pub time_limit: Option<Duration>,
+}
+
+#[derive(Debug, Clone)]
+pub enum WorkerAssignmentSnapshot {
+    Sn {
+        assigned: Vec<TaskId>,
+        prefilled: Vec<TaskId>,
+        /// total fractions per resource id
+        free: Vec<u64>,
+    },
+    Mn {
+        task_id: TaskId,
+        is_root: bool,
+    },
+}
+
+#[derive(Debug, Clone)]
+pub struct WorkerSnapshot {
+    pub id: WorkerId,
+    pub group: String,
+    /// total fractions per resource id
+    pub resources: Vec<u64>,
+    pub assignment: WorkerAssignmentSnapshot,
+    pub blocked_requests: Vec<(ResourceRqId, ResourceVariantId)>,
+    pub termination_time: Option<Instant>,
+    pub stop_reason: Option<LostWorkerReason>,
+    pub time_limit: Option<Duration>,
+}
+
+#[derive(Debug, Clone)]
+pub struct QueueSnapshot {
+    pub resource_rq_id: ResourceRqId,
+    /// (priority, task ids) in descending priority order
+    pub ready: Vec<(crate::Priority, Vec<TaskId>)>,
+    pub prefill: Option<(crate::Priority, Vec<TaskId>)>,
+}
+
+#[derive(Debug, Clone)]
+pub struct CoreSnapshot {
+    pub tasks: Vec<TaskSnapshot>,
+    pub workers: Vec<WorkerSnapshot>,
+    pub queues: Vec<QueueSnapshot>,
+    pub redirects: Vec<(TaskId, WorkerId, ResourceVariantId)>,
+    pub groups: Vec<(String, Vec<WorkerId>)>,
+    pub resource_names: Vec<String>,
+    pub requests: Vec<ResourceRequestVariants>,
+    pub scheduling_flag: bool,
+}
+
+/* ------------------------------------------------------------------------------------------ */
+/* Worker                                                                                     */
+/* ------------------------------------------------------------------------------------------ */
+
+pub struct SimWorker {
+    state_ref: WorkerStateRef,
+}
+
+#[derive(Debug, Clone)]
+pub struct RunningTaskSnapshot {
+    pub task_id: TaskId,
+    pub instance_id: InstanceId,
+    pub resource_rq_id: ResourceRqId,
+    pub rv_id: ResourceVariantId,
+    /// (resource id, amount in fractions, [(index, group, fractions)])
+    pub allocation: Vec<(u32, u64, Vec<(u32, u32, u32)>)>,
+    /// Address of the allocation object (identity check against what the launcher got)
+    pub allocation_ptr: usize,
+}
+
+#[derive(Debug, Clone)]
+pub struct WorkerStateSnapshot {
+    pub worker_id: WorkerId,
+    pub running: Vec<RunningTaskSnapshot>,
+    pub prefilled: Vec<(ResourceRqId, Vec<(TaskId, InstanceId)>)>,
+    pub blocked_requests: Vec<(ResourceRqId, ResourceVariantId)>,
+    pub allocator: AllocatorSnapshot,
+}
+
+impl SimWorker {
+    /// MIRROR: the part of `internal::worker::rpc::run_worker` that builds the worker state from
+    /// the registration response (no sockets, no background loops).
+    pub fn new(
+        registration_response: &[u8],
+        mut configuration: WorkerConfiguration,
+        sender: UnboundedSender<Bytes>,
+        spawner: SimSpawner,
+        launcher_setup: impl FnOnce(&str, WorkerId) -> Box<dyn TaskLauncher>,
+    ) -> crate::Result<Self> {
+        let WorkerRegistrationResponse {
+            worker_id,
+            other_workers,
+            resource_names,
+            resource_rq_map,
+            server_idle_timeout,
+            server_uid,
+            worker_overview_interval_override,
+        } = crate::internal::transfer::auth::deserialize(registration_response)?;
+        sync_worker_configuration(&mut configuration, server_idle_timeout);
+        let comm = WorkerComm::verif_new(sender, spawner);
+        let launcher = launcher_setup(&server_uid, worker_id);
+        let state_ref = WorkerStateRef::new(
+            comm,
+            worker_id,
+            configuration,
+            ResourceIdMap::from_vec(resource_names),
+            resource_rq_map,
+            launcher,
+            server_uid,
+        );
+        {
+            let mut state = state_ref.get_mut();
+            state.worker_overview_interval_override = worker_overview_interval_override;
+            for worker_info in other_workers {
+                state.new_worker(worker_info);
+            }
+        }
+        Ok(SimWorker { state_ref })
+    }
+
+    pub fn worker_id(&self) -> WorkerId {
+        self.state_ref.get().worker_id
+    }
+
+    /// The real `worker_message_loop` over a harness-provided stream of frames.
+    pub fn message_loop_future(
+        &self,
+        reader: ByteStream,
+    ) -> Pin<Box<dyn Future<Output = crate::Result<()>>>> {
+        Box::pin(crate::internal::worker::rpc::verif_worker_message_loop(
+            self.state_ref.clone(),
+            reader,
+        ))
+    }
+
+    /// The real `retract_check_process`.
+    pub fn retract_check_future(&self, interval: Duration) -> LocalFuture {
+        Box::pin(crate::internal::worker::rpc::verif_retract_check_process(
+            interval,
+            self.state_ref.clone(),
+        ))
+    }
+
+    /// MIRROR: what `run_worker` does to the state when the connection to the server ends and
+    /// before it waits for the tasks: drop the backlog, signal cancel to all running tasks.
+    pub fn cancel_all_on_end(&self) {
+        let mut state = self.state_ref.get_mut();
+        state.drop_non_running_tasks();
+        for task in state.running_tasks.values_mut() {
+            task.cancel();
+        }
+    }
+
+    /// MIRROR: `run_worker` end path: `comm().drop_sender()`.
+    pub fn drop_sender(&self) {
+        self.state_ref.get_mut().comm().drop_sender();
+    }
+
+    /// Send a message the way the worker's own loops do (used for `Stop(reason)`, heartbeats).
+    pub fn send_to_server(&self, message: FromWorkerMessage) {
+        self.state_ref
+            .get_mut()
+            .comm()
+            .send_message_to_server(message);
+    }
+
+    pub fn remaining_time(&self) -> Option<Duration> {
+        self.state_ref.get().remaining_time()
+    }
+
+    pub fn snapshot(&self) -> WorkerStateSnapshot {
+        let state = self.state_ref.get();
+        let mut running: Vec<RunningTaskSnapshot> = state
+            .running_tasks
+            .values()
+            .map(|rt| RunningTaskSnapshot {
+                task_id: rt.task.id,
+                instance_id: rt.task.instance_id,
+                resource_rq_id: rt.task.resource_rq_id,
+                rv_id: rt.rv_id,
+                allocation: allocation_to_plain(&rt.allocation),
+                allocation_ptr: Rc::as_ptr(&rt.allocation) as usize,
+            })
+            .collect();
+        running.sort_by_key(|r| r.task_id);
+        let mut prefilled: Vec<_> = state
+            .prefilled_tasks
+            .iter()
+            .map(|(rq, ts)| (*rq, ts.iter().map(|t| (t.id, t.instance_id)).collect()))
+            .collect();
+        prefilled.sort_by_key(|(rq, _): &(ResourceRqId, Vec<_>)| *rq);
+        let mut blocked: Vec<_> = state.blocked_requests.iter().copied().collect();
+        blocked.sort();
+        WorkerStateSnapshot {
+            worker_id: state.worker_id,
+            running,
+            prefilled,
+            blocked_requests: blocked,
+            allocator: state.allocator.verif_snapshot(),
+        }
+    }
+}
+
+pub fn allocation_to_plain(
+    allocation: &crate::resources::Allocation,
+) -> Vec<(u32, u64, Vec<(u32, u32, u32)>)> {
+    allocation
+        .resources
+        .iter()
+        .map(|ra| {
+            (
+                ra.resource_id.as_num(),
+                ra.amount.total_fractions(),
+                ra.indices
+                    .iter()
+                    .map(|i| (i.index.as_num(), i.group_idx, i.fractions))
+                    .collect(),
+            )
+        })
+        .collect()
+}
+
+pub fn decode_to_worker_message(data: &[u8]) -> crate::Result<ToWorkerMessage> {
+    crate::internal::transfer::auth::deserialize(data)
+}
+
+pub fn decode_from_worker_message(data: &[u8]) -> crate::Result<FromWorkerMessage> {
+    crate::internal::transfer::auth::deserialize(data)
+}
+
+/* ------------------------------------------------------------------------------------------ */
+/* Stand-alone allocator (for grant/release sequences without a worker state)                 */
+/* ------------------------------------------------------------------------------------------ */
+
+pub struct SimAllocator {
+    allocator: crate::internal::worker::resources::allocator::ResourceAllocator,
+    resource_map: ResourceIdMap,
+}
+
+impl SimAllocator {
+    /// Resource ids are assigned in the order of the descriptor items, `cpus` first if present
+    /// (this is what the server does for the first worker that registers).
+    pub fn new(descriptor: &crate::resources::ResourceDescriptor) -> Self {
+        let mut names: Vec<String> = vec![crate::resources::CPU_RESOURCE_NAME.to_string()];
+        for item in &descriptor.resources {
+            if !names.contains(&item.name) {
+                names.push(item.name.clone());
+            }
+        }
+        let resource_map = ResourceIdMap::from_vec(names);
+        let label_map = crate::internal::worker::resources::map::ResourceLabelMap::new(
+            descriptor,
+            &resource_map,
+        );
+        let allocator = crate::internal::worker::resources::allocator::ResourceAllocator::new(
+            descriptor,
+            &resource_map,
+            &label_map,
+        );
+        SimAllocator {
+            allocator,
+            resource_map,
+        }
+    }
+
+    pub fn resource_id(&self, name: &str) -> Option<u32> {
+        self.resource_map.get_index(name).map(|i| i.as_num())
+    }
+
+    /// Builds the internal request from (resource name, policy) pairs
+    pub fn make_request(
+        &self,
+        entries: &[(String, crate::resources::AllocationRequest)],
+    ) -> crate::resources::ResourceRequest {
+        crate::resources::ResourceRequest::new(
+            0,
+            Duration::ZERO,
+            entries
+                .iter()
+                .map(|(name, policy)| crate::resources::ResourceAllocRequest {
+                    resource_id: self.resource_map.get_index(name).unwrap(),
+                    request: policy.clone(),
+                })
+                .collect(),
+            Default::default(),
+        )
+    }
+
+    pub fn is_enabled(&self, request: &crate::resources::ResourceRequest) -> bool {
+        self.allocator.is_enabled(request)
+    }
+
+    pub fn is_capable_to_run(&self, request: &crate::resources::ResourceRequest) -> bool {
+        self.allocator.is_capable_to_run(request)
+    }
+
+    pub fn try_allocate(
+        &mut self,
+        request: &crate::resources::ResourceRequest,
+    ) -> Option<Rc<crate::resources::Allocation>> {
+        self.allocator.try_allocate(request)
+    }
+
+    pub fn release_allocation(&mut self, allocation: Rc<crate::resources::Allocation>) {
+        self.allocator.release_allocation(allocation)
+    }
+
+    pub fn snapshot(&self) -> AllocatorSnapshot {
+        self.allocator.verif_snapshot()
+    }
+}
